@@ -19,6 +19,13 @@ package rules
 // method, key-only range loops, named results, state bundled in a struct with a method, functions
 // moved to another file), detection re-checked on top of r2 and r4.
 //
+// Second robustness set (/verif/preserving/C19/r5..r8, all silent): adapter conversion code in
+// same-package converters (valueOf / valuesOf / copyData: the copy and nil checks are made inside
+// the converter), options of a read in a helper of the read, the comparison's loop split in two,
+// the done channel hoisted into a local, (key, prefix) as a parameter object, run split into setup
+// and a loop function that receives the closure as a parameter, adapters that start run through a
+// launcher method with a struct literal. Detection re-checked on top of r6, r7 and r8.
+//
 // Files: c19.go (helpers, R-C19-3), c19_units.go (run, units, R-C19-1), c19_timer.go (periodic source of R-C19-3), c19_reads.go (R-C19-2), c19_eq.go (R-C19-4),
 // c19_adapters.go (R-C19-5).
 //
@@ -100,19 +107,21 @@ type c19unit struct {
 
 // c19run is what the rules share about (*syncer).run.
 type c19run struct {
-	f       *flow.Func
-	cons    string
-	sendObj *types.Var // the delivery callback parameter
-	keyObj  *types.Var // string parameter (key / prefix)
-	prefObj *types.Var // bool parameter (prefix flag)
-	snapT   types.Type // map[string]*mvccpb.KeyValue
-	pm      map[ast.Node]ast.Node
-	runObj  *types.Func
-	funcs   []*flow.Func                         // run and the same-package functions below it
-	pms     map[*flow.Func]map[ast.Node]ast.Node // parent maps of funcs
-	cb      map[types.Object]bool                // the callback parameter and the cells it is stored in
-	units   []*c19unit
-	last    []*types.Var // snapshot-typed variables of run that outlive a unit
+	f         *flow.Func
+	cons      string
+	sendObj   *types.Var // the delivery callback parameter
+	keyObj    *types.Var // string parameter (key / prefix)
+	prefObj   *types.Var // bool parameter (prefix flag)
+	snapT     types.Type // map[string]*mvccpb.KeyValue
+	pm        map[ast.Node]ast.Node
+	runObj    *types.Func
+	targetObj *types.Var                           // run's parameter object carrying (key, prefix), if any
+	unitAlias map[types.Object]*c19unit            // helper parameters bound to a unit closure
+	funcs     []*flow.Func                         // run and the same-package functions below it
+	pms       map[*flow.Func]map[ast.Node]ast.Node // parent maps of funcs
+	cb        map[types.Object]bool                // the callback parameter and the cells it is stored in
+	units     []*c19unit
+	last      []*types.Var // snapshot-typed variables of run that outlive a unit
 
 	pulls []c19pullSite // filled by R-C19-1
 	eqFns []*types.Func // comparison callees found by R-C19-1
@@ -349,6 +358,58 @@ const (
 	c19evTick = "ev:intick" // the current iteration runs the timer case
 )
 
+// c19resolveLocal: an identifier naming a local that is assigned exactly once in f stands for the
+// expression it was assigned (`done := s.done` hoisted out of a loop).
+func c19resolveLocal(f *flow.Func, e ast.Expr) ast.Expr {
+	e = ast.Unparen(e)
+	for depth := 0; depth < 3; depth++ {
+		id, ok := e.(*ast.Ident)
+		if !ok {
+			return e
+		}
+		o := c19obj(f, id)
+		if o == nil {
+			return e
+		}
+		var rhs ast.Expr
+		n := 0
+		ast.Inspect(f.Body, func(x ast.Node) bool {
+			switch s := x.(type) {
+			case *ast.AssignStmt:
+				for i, l := range s.Lhs {
+					if c19obj(f, l) == o {
+						n++
+						if len(s.Lhs) == len(s.Rhs) {
+							rhs = s.Rhs[i]
+						} else {
+							n++
+						}
+					}
+				}
+			case *ast.ValueSpec:
+				for i, nm := range s.Names {
+					if f.Info.Defs[nm] == o {
+						n++
+						if i < len(s.Values) {
+							rhs = s.Values[i]
+						}
+					}
+				}
+			case *ast.UnaryExpr:
+				if s.Op == token.AND && c19obj(f, s.X) == o {
+					n += 2
+				}
+			}
+			return true
+		})
+		if n != 1 || rhs == nil {
+			return e
+		}
+		e = ast.Unparen(rhs)
+	}
+	return e
+}
+
 // c19recvFrom returns the channel operand of a receive communication (`<-x`, `v := <-x`).
 func c19recvFrom(comm ast.Stmt) ast.Expr {
 	var e ast.Expr
@@ -369,21 +430,32 @@ func c19recvFrom(comm ast.Stmt) ast.Expr {
 func c19Skeleton(c *core.Ctx, r *c19run) {
 	f := r.f
 	isPcs := func(call *ast.CallExpr) bool { return r.isUnitCall(f, call) != nil }
-	// the loop: outermost for statement of run containing a pull-compare-send invocation
+	// the loop: outermost for statement containing a pull-compare-send invocation, in run or in a
+	// same-package function below it (run split into setup + loop)
 	var loop *ast.ForStmt
-	c19inspect(f.Body, func(n ast.Node) bool {
-		if fs, ok := n.(*ast.ForStmt); ok && loop == nil {
-			for _, call := range calls(fs.Body, false) {
-				if isPcs(call) {
-					loop = fs
+	lf := f // the function the loop sits in
+	for _, g := range r.funcs {
+		if loop != nil {
+			break
+		}
+		c19inspect(g.Body, func(n ast.Node) bool {
+			if fs, ok := n.(*ast.ForStmt); ok && loop == nil {
+				for _, call := range calls(fs.Body, false) {
+					if isPcs(call) {
+						loop, lf = fs, g
+					}
+				}
+				if loop != nil {
+					return false
 				}
 			}
-			if loop != nil {
-				return false
-			}
-		}
-		return true
-	})
+			return true
+		})
+	}
+	var loopObj types.Object
+	if lfd, ok := lf.Node.(*ast.FuncDecl); ok && lf != f {
+		loopObj = lf.Info.Defs[lfd.Name]
+	}
 	if loop == nil {
 		c.Violate("R-C19-3", r.cons+"|periodic pull", pos(c, f.Body),
 			"run has no loop that keeps invoking pull-compare-send: after the first snapshot nothing is ever delivered again")
@@ -414,13 +486,13 @@ func c19Skeleton(c *core.Ctx, r *c19run) {
 		if ch == nil {
 			return true
 		}
-		if ct, ok := f.Info.TypeOf(ch).Underlying().(*types.Chan); ok {
+		if ct, ok := lf.Info.TypeOf(ch).Underlying().(*types.Chan); ok {
 			if nt, ok := ct.Elem().(*types.Named); ok && nt.Obj().Pkg() != nil && nt.Obj().Pkg().Path() == "time" && nt.Obj().Name() == "Time" {
 				tick = append(tick, cc)
 			}
 		}
-		if sel, ok := ch.(*ast.SelectorExpr); ok {
-			if s := f.Info.Selections[sel]; s != nil {
+		if sel, ok := c19resolveLocal(lf, ch).(*ast.SelectorExpr); ok {
+			if s := lf.Info.Selections[sel]; s != nil {
 				for _, fld := range chanFields {
 					if s.Obj() == fld {
 						done = append(done, cc)
@@ -445,7 +517,7 @@ func c19Skeleton(c *core.Ctx, r *c19run) {
 	for i, t := range tick {
 		isTick[t] = true
 		tickIdx[t] = i
-		srcs[i] = c19classifySource(r, c19recvFrom(t.Comm), 0)
+		srcs[i] = c19classifySource(r, lf, c19recvFrom(t.Comm), 0)
 		rearming[i] = map[types.Object]bool{}
 		if srcs[i].needsRearm() {
 			for _, u := range r.units {
@@ -467,6 +539,13 @@ func c19Skeleton(c *core.Ctx, r *c19run) {
 	var badInit, badTick *flow.State
 	first, tickIters := 0, 0
 	res := analyze(c, f, flow.Config{
+		// run split into setup and loop: interpret the function holding the loop in place
+		Inline: func(call *ast.CallExpr, callee *types.Func) *flow.Func {
+			if loopObj != nil && types.Object(callee) == loopObj {
+				return lf
+			}
+			return nil
+		},
 		OnCall: func(st *flow.State, call *ast.CallExpr, callee types.Object, deferred bool) {
 			if isPcs(call) {
 				st.Set(c19evPcs, flow.True)
@@ -568,7 +647,7 @@ func c19Skeleton(c *core.Ctx, r *c19run) {
 		}
 	}
 	// the loop is left only on done
-	exits := breaksOut(f, loop, labelOf(f.Body, loop))
+	exits := breaksOut(lf, loop, labelOf(lf.Body, loop))
 	var badExit ast.Node
 	for _, x := range exits {
 		in := false
